@@ -18,11 +18,41 @@ class _Tables(WriterTables):
     """KEY_MAP and the writer's skip list only: the C01 rules do not consult the route table of update_field, so its shape is not
     theirs to judge (the properties that use it do)."""
 
+    def __init__(self, proj, ctx):
+        self._ctx = ctx
+        super().__init__(proj)
+
     def _dispatch(self):
         pass
 
     def _handler_reads(self):
         pass
+
+    def _skip(self):
+        """keys of the attribute map the writer leaves out: the literal table a `<key> in <table>: continue` test of the loop over
+        `<entity>.attribute_map.items()` consults — the loop may live in a generator helper feeding write_attributes."""
+        fn0 = self.writer.methods.get("write_attributes")
+        if fn0 is None:
+            raise AnalysisError("anchor H5Writer.write_attributes not found")
+        fn = expand_generators(self._ctx, view(self._ctx, fn0))
+        S = Sym(fn.node)
+        self.skip_keys = []
+        found = False
+        for lp in ast.walk(fn.node):
+            if not (isinstance(lp, ast.For) and isinstance(lp.target, ast.Tuple) and len(lp.target.elts) == 2 and isinstance(lp.target.elts[0], ast.Name)
+                    and "attribute_map" in S.text(lp.iter)):
+                continue
+            found = True
+            key = lp.target.elts[0].id
+            for n in ast.walk(lp):
+                if isinstance(n, ast.If) and any(isinstance(b, ast.Continue) for b in n.body):
+                    for x in ast.walk(n.test):
+                        if isinstance(x, ast.Compare) and len(x.ops) == 1 and isinstance(x.ops[0], ast.In) and isinstance(x.left, ast.Name) and x.left.id == key:
+                            mem = S._literal_members(S.X(x.comparators[0]))
+                            if mem is not None:
+                                self.skip_keys += [m for m in mem if m not in self.skip_keys]
+        if not found:
+            raise AnalysisError("H5Writer.write_attributes: loop over attribute_map not found")
 
 
 def _init_params(K):
@@ -58,7 +88,7 @@ def rule_schema(ctx) -> RuleResult:
         floor=800,
     )
     p = ctx.p
-    t = _Tables(p)
+    t = _Tables(p, ctx)
     ent, ety = p.cls("Entity"), p.cls("EntityType")
     n_cls = 0
     for K in p.classes:
@@ -145,7 +175,7 @@ def rule_fetchkey(ctx) -> RuleResult:
         floor=15,
     )
     p = ctx.p
-    t = _Tables(p)
+    t = _Tables(p, ctx)
     ent = p.cls("Entity")
     wsc = p.cls("Workspace")
     seen = set()
@@ -530,6 +560,12 @@ def _reset_nodes(P, field):
             st = n.ast
             if isinstance(st, (ast.Assign, ast.AnnAssign)) and st.value is not None and _self_store(st, field) and _is_empty_container(P.X(st.value)):
                 out.append(n)
+            elif isinstance(st, ast.Assign) and len(st.targets) == 1 and isinstance(st.targets[0], ast.Tuple) and isinstance(st.value, ast.Tuple) \
+                    and len(st.value.elts) == len(st.targets[0].elts):
+                # `self._a, self._b = {}, {}`: element-wise
+                for t, v in zip(st.targets[0].elts, st.value.elts):
+                    if isinstance(t, ast.Attribute) and t.attr == field and isinstance(t.value, ast.Name) and t.value.id == "self" and _is_empty_container(P.X(v)):
+                        out.append(n)
             elif isinstance(st, ast.Expr) and _is_setattr_empty(P, st.value, repr(field)):
                 out.append(n)
         elif n.kind == "foriter" and isinstance(n.stmt.target, ast.Name):
@@ -625,7 +661,7 @@ def rule_flow(ctx) -> RuleResult:
 
     se0, se = anchor(ws, "save_entity")
     P = Paths(se.node)
-    ok = any(isinstance(c, ast.Call) and attr_name(c) == "_io_call" and len(c.args) > 1 and P.text(c.args[0]) == "H5Writer.save_entity" and P.text(c.args[1]) == se0.params[1]
+    ok = any(isinstance(c, ast.Call) and attr_name(c) in _io_names(p) and len(c.args) > 1 and P.text(c.args[0]) == "H5Writer.save_entity" and P.text(c.args[1]) == se0.params[1]
              and kw(c, "add_children", 3) is not None and P.text(kw(c, "add_children", 3)) == se0.params[2] for c in ast.walk(se.node))
     chk(ok, "Workspace.save_entity forwards (entity, add_children) to H5Writer.save_entity", "Workspace", "save_entity", "does not forward to H5Writer.save_entity", se0.where,
         "saving an entity does not reach the writer")
@@ -681,7 +717,7 @@ def rule_flow(ctx) -> RuleResult:
     dflt = default_of(hs0.node, addp)
 
     def final_save(c):
-        if not (attr_name(c) == "_io_call" and len(c.args) > 1 and P.text(c.args[0]) == "H5Writer.save_entity" and P.text(c.args[1]) in ("self.root", "self._root")):
+        if not (attr_name(c) in _io_names(p) and len(c.args) > 1 and P.text(c.args[0]) == "H5Writer.save_entity" and P.text(c.args[1]) in ("self.root", "self._root")):
             return False
         v = kw(c, addp, 3)
         return _is_true(P.X(v)) if v is not None else _is_true(dflt)
@@ -904,28 +940,57 @@ def rule_unlink(ctx) -> RuleResult:
     unlinks, per_child, covered = 0, True, {}
     moved_first = _rebinds_before_unlink(ctx, p)
     kinds = {"Group": p.cls("Group"), "ObjectBase": p.cls("ObjectBase"), "Data": p.cls("Data", "data.data"), "PropertyGroup": p.cls("PropertyGroup")}
-    for lp in loops:
-        roles = {lp.target.id: "R_child", par_p: "R_parent"}
-        P = Paths(rc.node, roles)
-        is_unlink = lambda c, P=P: attr_name(c) == "_io_call" and len(c.args) > 3 and P.text(c.args[0]) == "H5Writer.remove_child" and P.text(c.args[3]) == "R_parent"  # noqa: E731
-        for n in P.call_nodes(is_unlink, within=lp):
-            for c in [c for e in P.exprs(n) for c in ast.walk(e) if isinstance(c, ast.Call) and is_unlink(c)]:
-                unlinks += 1
-                # provenance: the uid AND the container name both come from the child of this iteration
-                kind_src = {x.id for x in ast.walk(P.X(c.args[2])) if isinstance(x, ast.Name)}
-                per_child = per_child and P.text(c.args[1]) == "R_child.uid" and "R_child" in kind_src
-        for kname, K in kinds.items():
-            Pk = Paths(rc.node, roles, kinds={"R_child": kind_of(p, K)})
+    child_vars = {lp.target.id for lp in loops}
+
+    def io(P, c, what):
+        """positional arguments of `self._io_call(H5Writer.<what>, ...)` — also when function and arguments are collected per branch
+        and handed over as `_io_call(fun, *args, **kwargs)` (resolved on the code specialised for one kind) — else None"""
+        if not (isinstance(c, ast.Call) and attr_name(c) in _io_names(p) and c.args and P.text(c.args[0]) == f"H5Writer.{what}"):
+            return None
+        args, kws = [], {}
+        for x in c.args[1:]:
+            v = P.X(x.value) if isinstance(x, ast.Starred) else None
+            if isinstance(x, ast.Starred) and not isinstance(v, (ast.Tuple, ast.List)):
+                return None
+            args += list(v.elts) if v is not None else [x]
+        for k in c.keywords:
+            v = P.X(k.value) if k.arg is None else None
+            if k.arg is not None:
+                kws[k.arg] = k.value
+            elif isinstance(v, ast.Dict) and all(isinstance(x, ast.Constant) for x in v.keys):
+                kws.update({x.value: y for x, y in zip(v.keys, v.values)})
+        return args, kws
+
+    for kname, K in kinds.items():
+        # the code that runs for a child of this kind (branches on the kind taken)
+        node_k = specialise(rc.node, kinds={v: kind_of(p, K) for v in child_vars})
+        P0k = Paths(node_k)
+        for lp in [x for x in _loops(node_k) if isinstance(x.target, ast.Name) and P0k.iter_text(x) == list_p]:
+            roles = {lp.target.id: "R_child", par_p: "R_parent"}
+            Pk = Paths(node_k, roles, kinds={"R_child": kind_of(p, K)})
             head, nxt, body = Pk.loop_nodes(lp)
             if Pk.loop_source(lp)[1] is False:
                 continue  # this loop does not see children of this kind
-            if kname == "PropertyGroup":
-                tg = Pk.call_nodes(lambda c, Pk=Pk: attr_name(c) == "_io_call" and len(c.args) > 1 and Pk.text(c.args[0]) == "H5Writer.add_or_update_property_group" and Pk.text(c.args[1]) == "R_child"
-                                   and kw(c, "remove") is not None and _is_true(Pk.X(kw(c, "remove"))), within=lp)
-            else:
-                tg = Pk.call_nodes(lambda c, Pk=Pk: attr_name(c) == "_io_call" and len(c.args) > 3 and Pk.text(c.args[0]) == "H5Writer.remove_child" and Pk.text(c.args[3]) == "R_parent", within=lp)
+
+            def unlink(c, Pk=Pk):
+                r = io(Pk, c, "remove_child")
+                return r is not None and len(r[0]) > 2 and Pk.text(r[0][2]) == "R_parent"
+
+            def drop_group(c, Pk=Pk):
+                r = io(Pk, c, "add_or_update_property_group")
+                return r is not None and r[0] and Pk.text(r[0][0]) == "R_child" and "remove" in r[1] and _is_true(Pk.X(r[1]["remove"]))
+
+            if kname != "PropertyGroup":
+                for n in Pk.call_nodes(unlink, within=lp):
+                    for c_ in [c_ for e in Pk.exprs(n) for c_ in ast.walk(e) if isinstance(c_, ast.Call) and unlink(c_)]:
+                        unlinks += 1
+                        # provenance: the uid AND the container name both come from the child of this iteration
+                        args = io(Pk, c_, "remove_child")[0]
+                        kind_src = {x.id for x in ast.walk(Pk.X(args[1])) if isinstance(x, ast.Name)}
+                        per_child = per_child and Pk.text(args[0]) == "R_child.uid" and "R_child" in kind_src
+            tg = Pk.call_nodes(drop_group if kname == "PropertyGroup" else unlink, within=lp)
             # the obligation is about a child OF the given parent: a skip decided by "this child belongs to another parent" (a test
-            # relating the child's own parent / the parent's own lists to the `parent` parameter) is not a missed unlink
+            # relating the child's own parent / the parent's own lists to the `parent` parameter) is not a missed unlink.
             # That test is only meaningful for a kind whose `parent` still names the holder when the request arrives: an entity that
             # is being moved has its parent re-bound before the previous holder is asked to drop it (Entity.parent setter), and the
             # holder has already taken it off its own lists.
@@ -1003,6 +1068,26 @@ def _rebinds_before_unlink(ctx, p) -> bool:
     stores = P.stmt_nodes(lambda s: _self_store(s, "_parent"))
     drops = P.call_nodes(lambda c: attr_name(c) == "remove_children" and any(P.text(x) == "self" for a in c.args for x in ast.walk(a) if isinstance(x, ast.Name)))
     return bool(stores) and bool(drops) and P.reaches(P.after(stores), drops)
+
+
+_IO_NAMES: dict = {}
+
+
+def _io_names(p) -> set:
+    """`_io_call` and the Workspace methods that only forward to it: `def _w(self, fun, *args, **kw): return self._io_call(fun, *args, ...)`."""
+    if id(p) not in _IO_NAMES:
+        names = {"_io_call"}
+        for name, fn in p.cls("Workspace").methods.items():
+            a = fn.node.args
+            if a.vararg is None or len(fn.params) < 2:
+                continue
+            for x in ast.walk(fn.node):
+                if isinstance(x, ast.Call) and attr_name(x) == "_io_call" and len(x.args) >= 2 and isinstance(x.args[0], ast.Name) and x.args[0].id == fn.params[1] \
+                        and isinstance(x.args[1], ast.Starred) and unparse(x.args[1].value) == a.vararg.arg:
+                    names.add(name)
+        _IO_NAMES.clear()
+        _IO_NAMES[id(p)] = names
+    return _IO_NAMES[id(p)]
 
 
 def _is_request(e, req) -> bool:
